@@ -57,6 +57,12 @@ def scenarios(tier, seed=0):
         spec = A.to_spec(A._b(crop=ck, irr="smt", iwc="FC", word="normal", win={"pre": pre, "seasons": 3}, soil="SandyLoam"))
         spec["co2"] = co2
         yield {"kind": "spec", "spec": spec, "label": ["start-after-planting", ck, pre, bool(co2)]}
+    # a constant CO2 concentration, the switch written as True, numpy.True_ and 1 (every place that reads the switch must read it the
+    # same way - whichever way that is), C3 crops, 3 seasons
+    for ck, flag, conc in itertools.product(["cotton.2", "potato.2"] if not q else ["cotton.2"], [True, "np_true", 1], [450.0, 600.0]):
+        spec = A.to_spec(A._b(crop=ck, irr="smt", iwc="FC", word="normal", win="w3", soil="SandyLoam"))
+        spec["co2"] = {"constant_conc": flag, "current_concentration": conc}
+        yield {"kind": "spec", "spec": spec, "label": ["constant-co2-switch-spelling", ck, str(flag), conc]}
     # short thermal-time crops under sustained heat (pollination fails on the record's temperatures; anything that alters the
     # temperatures a later season sees shows against the run started at that season)
     for word, irr, meth in itertools.product(["scorch", "hot", "coolnights"], ["smt", "none"] if not q else ["smt"], [1, 2, 3]):
